@@ -138,7 +138,7 @@ ExpResult(s, pre) ==
 ExpSize(s, pre) == Len(Encode(Type, pre[s.o + 1]))
 Emit == LET s == hist'[Len(hist')]
             common == [lobjs |-> [i \in 1..NObj |-> ToProj(objs'[i])], chk |-> ""]
-        IN PrintT("@@" \o ToJson([type |-> Type, dyn |-> FALSE, nobj |-> NObj, steps |-> hist',
+        IN PrintT("@@" \o ToJson([type |-> Type, dyn |-> FALSE, nobj |-> NObj, lastonly |-> TRUE, steps |-> hist',
                                   exp |-> IF Skipped(objs, s) THEN common
                                           ELSE IF s.op = "size" THEN common @@ [lsize |-> ExpSize(s, objs)]
                                           ELSE IF s.op = "marshal" THEN common @@ [lerr |-> MarshalErr(Type, objs[s.o + 1], s)]
